@@ -11,12 +11,17 @@ types : "str"|"int"|"float"|"bool"|"none"|"any" | {"u":[..]} | {"l":t} | {"d":["
 types also: {"rn":["int"|"float"|"str", k]} restricted type k, {"reg": k} registered type k; values also {"o":[k, repr]}.
 oracle also: "numstr"/"baseof": [[base, value, value | null]], "rnumok": [[k, value, true|false]],
              "regdeser"/"regser": [[k, value, value | null]] (tags as strings; null = the function raises)
+oracle also: "rspec": [[k, {"re": <Re>} | {"num": {"or": bool, "rs": [[">"|">="|"<"|"<="|"=="|"!=", <int> | {"f": repr}]]}}]]
+             specification of the restricted type k: its predicate is then COMPUTED by the model (Core/AdaptRestr.lean) and
+             "rnumok" is not consulted for k.  <Re>: {"k":"eps"|"bol"|"eol"|"mbol"|"meol"} | {"k":"cls","neg":b,"r":[[lo,hi]]}
+             | {"k":"cat"|"alt","a":[..]} | {"k":"star","a":[x]}
 oracle: {"yaml":[[s, value | {"x":1}]], "any":[[s, value | {"x":1}]], "bigflt":[[i, repr | null (= OverflowError)]], "intof":[[s, i | null]]}
         ({"x":1} = the loader raised).  A string that the model could look up but that has no table entry is
         reported as {"miss": s} instead of guessing.
 -/
 import Lean.Data.Json
 import Jap.Core.Adapt
+import Jap.Core.AdaptRestr
 import Jap.Gen.AdaptTables
 
 open Lean Jap.Adapt
@@ -123,6 +128,59 @@ structure Tables where
   intof : List (String × Option Int) := []
   -- keyed tables for the registered / restricted leaves: key = "<tag>|<compressed JSON of the value>"
   keyed : List (String × Option Val) := []
+  rspec : List (Nat × Restr) := []
+
+
+/-! ### specifications of restricted types -/
+
+partial def reOfJson (j : Json) : Re :=
+  let kids : List Re := match j.getObjVal? "a" with | .ok (.arr xs) => xs.toList.map reOfJson | _ => []
+  match j.getObjVal? "k" with
+  | .ok (.str "cls") =>
+    let neg := match j.getObjVal? "neg" with | .ok (.bool b) => b | _ => false
+    let rs := match j.getObjVal? "r" with
+      | .ok (.arr ps) => ps.toList.filterMap fun p => match p with
+        | .arr #[.num a, .num b] => some (a.mantissa.toNat, b.mantissa.toNat)
+        | _ => none
+      | _ => []
+    .cls neg rs
+  | .ok (.str "cat") => kids.foldr (fun a b => .cat a b) .eps
+  | .ok (.str "alt") => (match kids with | [] => .eps | k :: ks => ks.foldl (fun a b => .alt a b) k)
+  | .ok (.str "star") => (match kids with | k :: _ => .star k | [] => .eps)
+  | .ok (.str "bol") => .bol
+  | .ok (.str "eol") => .eol
+  | .ok (.str "mbol") => .mbol
+  | .ok (.str "meol") => .meol
+  | _ => .eps
+
+def cmpOfSym : String → Option Cmp
+  | ">" => some .gt | ">=" => some .ge | "<" => some .lt | "<=" => some .le | "==" => some .eq | "!=" => some .ne
+  | _ => none
+
+def numOfJson (j : Json) : Except String Num :=
+  match j with
+  | .num n => if n.exponent == 0 then .ok (.dec n.mantissa 0) else .error "non-integer reference"
+  | j => match j.getObjVal? "f" with
+    | .ok (.str r) => .ok (fltNum r)
+    | _ => .error "bad reference"
+
+def restrOfJson (j : Json) : Except String Restr :=
+  match j.getObjVal? "re" with
+  | .ok r => .ok (.re (reOfJson r))
+  | .error _ =>
+    match j.getObjVal? "num" with
+    | .ok n => do
+      let isOr := match n.getObjVal? "or" with | .ok (.bool b) => b | _ => false
+      let items : List Json := match n.getObjVal? "rs" with | .ok (.arr xs) => xs.toList | _ => []
+      let rs ← items.mapM fun (p : Json) =>
+        match p with
+        | Json.arr #[Json.str op, ref] => do
+          let c ← (match cmpOfSym op with | some c => pure c | none => throw "bad comparison")
+          let x ← numOfJson ref
+          pure (c, x)
+        | _ => throw "bad restriction"
+      pure (.num isOr rs)
+    | .error _ => .error "bad restriction spec"
 
 def loadEntry (j : Json) : Except String (String × Option Val) :=
   match j with
@@ -158,11 +216,16 @@ def tablesOfJson (j : Json) : Except String Tables := do
   let k3 ← keyedOf "baseof"
   let k4 ← keyedOf "regdeser"
   let k5 ← keyedOf "regser"
-  pure { yaml, any, bigflt, intof, keyed := k1 ++ k2 ++ k3 ++ k4 ++ k5 }
+  let rspec ← (arr "rspec").mapM fun (e : Json) => match e with
+    | Json.arr #[Json.num k, sp] => do
+      let r ← restrOfJson sp
+      pure (k.mantissa.toNat, r)
+    | _ => .error "bad rspec entry"
+  pure { yaml, any, bigflt, intof, keyed := k1 ++ k2 ++ k3 ++ k4 ++ k5, rspec }
 
 def rbaseTag : RBase → String | .int => "int" | .float => "float" | .str => "str"
 
-def Tables.oracle (T : Tables) : Oracle where
+def Tables.baseOracle (T : Tables) : Oracle where
   yaml s := match T.yaml.lookup s with | some r => r | none => none
   loadAny s := match T.any.lookup s with | some r => r | none => none
   bigFlt i := match T.bigflt.lookup i with | some r => r | none => none
@@ -174,6 +237,9 @@ def Tables.oracle (T : Tables) : Oracle where
   baseOf b v := (T.keyed.lookup ("baseof|" ++ rbaseTag b ++ "|" ++ (valToJson v).compress)).join
   regDeser k v := (T.keyed.lookup ("regdeser|" ++ toString k ++ "|" ++ (valToJson v).compress)).join
   regSer k v := (T.keyed.lookup ("regser|" ++ toString k ++ "|" ++ (valToJson v).compress)).join
+
+/-- restrictions with a specification are computed by the model, the others looked up -/
+def Tables.oracle (T : Tables) : Oracle := T.baseOracle.withRestr (fun k => T.rspec.lookup k)
 
 /-- strings (values and dict keys) occurring in a value -/
 partial def stringsOf : Val → List String
@@ -193,7 +259,10 @@ def findMiss (T : Tables) (v : Val) : Option String :=
   let results : List Val := v :: (T.yaml.filterMap (·.2)) ++ (T.any.filterMap (·.2))
   let strs := results.flatMap stringsOf
   let ints := results.flatMap intsOf
-  match strs.find? (fun s => (T.yaml.lookup s).isNone || (T.any.lookup s).isNone || (T.intof.lookup s).isNone) with
+  let needNum := !T.rspec.isEmpty
+  let numMiss (s : String) : Bool := needNum &&
+    ((T.keyed.lookup ("numstr|int|" ++ (Json.str s).compress)).isNone || (T.keyed.lookup ("numstr|float|" ++ (Json.str s).compress)).isNone)
+  match strs.find? (fun s => (T.yaml.lookup s).isNone || (T.any.lookup s).isNone || (T.intof.lookup s).isNone || numMiss s) with
   | some s => some s
   | none =>
     match ints.find? (fun i => i.natAbs > 2 ^ 53 && (T.bigflt.lookup i).isNone) with
@@ -218,17 +287,19 @@ def item (O : Oracle) (t : Ty) (dflt : Option Val) (v : Val) (w : String) : Json
   | "parseArg" => resToJson (parseArg O t (strOfVal v))
   | "adaptStr" => resToJson (adaptStr O t (strOfVal v))
   | "ser" => resToJson (ser O t v)
-  | "conf" => .bool (conf t v)
-  | "confLit" => .bool (confL true false t v)
-  | "confKey" => .bool (confL false true t v)
-  | "confLoose" => .bool (confL true true t v)
+  | "conf" => .bool (conf O.rnumOk t v)
+  | "confLit" => .bool (confL O.rnumOk true false t v)
+  | "confKey" => .bool (confL O.rnumOk false true t v)
+  | "confLoose" => .bool (confL O.rnumOk true true t v)
+  | "confBase" => .bool (conf (fun _ _ => true) t v)           -- the validator without the restrictions
+  | "rnumOk" => (match t with | .rnum _ k => .bool (O.rnumOk k v) | _ => .null)
   | "hashable" => .bool (hashable v)
   | "branch" => .str (branchOf t)
   -- second pass on the result of a parse (C10)
   | "objAgain" => (match parseObj O t v with | .ok r => resToJson (parseObj O t r) | .error _ => .null)
   | "argAgain" => (match parseArg O t (strOfVal v) with | .ok r => resToJson (parseObj O t r) | .error _ => .null)
-  | "objConf" => (match parseObj O t v with | .ok r => .bool (conf t r) | .error _ => .null)
-  | "argConf" => (match parseArg O t (strOfVal v) with | .ok r => .bool (conf t r) | .error _ => .null)
+  | "objConf" => (match parseObj O t v with | .ok r => .bool (conf O.rnumOk t r) | .error _ => .null)
+  | "argConf" => (match parseArg O t (strOfVal v) with | .ok r => .bool (conf O.rnumOk t r) | .error _ => .null)
   | _ => Json.mkObj [("bad-want", .str w)]
 
 def handle (j : Json) : Json :=
